@@ -269,7 +269,7 @@ theorem frameFlags_prevMode (useDtx isSil : Bool) (mode : Mode) (fQ1 : Nat) (tc 
     (frameFlags useDtx isSil mode fQ1 tc st os).1.prevMode = .celt ∨
     (frameFlags useDtx isSil mode fQ1 tc st os).1.prevMode = mode := by
   induction os generalizing st with
-  | nil => left; exact ⟨rfl, fun _ _ h => by cases h, fun _ => rfl⟩
+  | nil => left; exact ⟨rfl, fun _ _ h => (by cases h), fun _ => rfl⟩
   | cons o os ih =>
     simp only [frameFlags]
     have h1 := frameStep_prevMode useDtx isSil mode fQ1 (tc && os.isEmpty) st o
@@ -277,7 +277,7 @@ theorem frameFlags_prevMode (useDtx isSil : Bool) (mode : Mode) (fQ1 : Nat) (tc 
     rcases h1 with ⟨ha, hb⟩ | hc
     · rcases h2 with ⟨h21, _, _⟩ | h22
       · left
-        refine ⟨?_, ?_, fun h => by cases h⟩
+        refine ⟨?_, ?_, fun h => (by cases h)⟩
         · rw [h21, hb]; exact (frameSilk_fields ..).2.1
         · intro o' rest h; cases h; exact ha
       · right; exact h22
@@ -288,11 +288,28 @@ theorem frameFlags_prevMode (useDtx isSil : Bool) (mode : Mode) (fQ1 : Nat) (tc 
 /-! ### One encode call -/
 
 theorem prepCall_prevMode (c : Cfg) (st : St) (o : CallOr) : (prepCall c st o).prevMode = st.prevMode := by
-  unfold prepCall; split <;> rfl
+  unfold prepCall; simp only; split <;> exact (switchReset_fields _ _).1
 
+/-- The SILK slice at the start of the frame loop: re-initialised when leaving CELT-only, counters
+    cleared when the detector in charge changes, else untouched. -/
 theorem prepCall_silk (c : Cfg) (st : St) (o : CallOr) :
-    (prepCall c st o).silk = if o.mode ≠ .celt ∧ st.prevMode = .celt then silkInit else st.silk := by
-  unfold prepCall; split <;> rfl
+    (prepCall c st o).silk = if o.mode ≠ .celt ∧ st.prevMode = .celt then silkInit
+      else (if sdtxOf c o ≠ st.silkUseDtx then { st.silk with c0 := 0, c1 := 0 } else st.silk) := by
+  unfold prepCall; simp only
+  rw [(switchReset_fields _ _).1]
+  split
+  · rfl
+  · exact (switchReset_fields _ _).2.2.2.2.2
+
+/-- The mid counter at the start of the frame loop is the stored one or 0. -/
+theorem prepCall_c0 (c : Cfg) (st : St) (o : CallOr) :
+    (prepCall c st o).silk.c0 = st.silk.c0 ∨ (prepCall c st o).silk.c0 = 0 := by
+  rw [prepCall_silk]
+  split
+  · right; rfl
+  · split
+    · right; rfl
+    · left; rfl
 
 theorem pktOf_dtx (l : List Bool) (n m : Nat) (h : pktOf l n = .dtx m) : l ≠ [] ∧ ∀ d ∈ l, d = true := by
   unfold pktOf at h
@@ -322,7 +339,7 @@ theorem inDtx_of_dtx (c : Cfg) (st : St) (o : CallOr) (hr : Regular c) (hlen : o
     inDtx c (encodeCall c st o).1 = true := by
   have hreg := encodeCall_regular c st o hr hlen
   rw [hreg.2] at hpkt
-  obtain ⟨hne, hall⟩ := pktOf_dtx _ _ _ hpkt
+  obtain ⟨hne, hall⟩ := pktOf_dtx _ _ _ (finalPkt_dtx _ _ _ _ hpkt)
   rw [hreg.1]
   have hsne : o.subs ≠ [] := by
     intro h0
@@ -348,13 +365,17 @@ theorem inDtx_of_dtx (c : Cfg) (st : St) (o : CallOr) (hr : Regular c) (hlen : o
     simp only at hC
     obtain ⟨hm, hc0, hpm, hsu, h0, h1⟩ := hC
     rw [prepCall_prevMode] at hpm
-    rw [prepCall_silk] at hc0
     have hpm' : st.prevMode = .silk ∨ st.prevMode = .hybrid := by
       cases hp : st.prevMode
-      · exact absurd (by simp [hp, hinv hp]) hc0
+      · exfalso
+        rcases prepCall_c0 c st o with h | h
+        · exact hc0 (by rw [h]; exact hinv hp)
+        · exact hc0 h
       · left; rfl
       · right; rfl
-      · exact absurd (by simp [hp, hm, silkInit]) hc0
+      · exfalso
+        apply hc0
+        rw [prepCall_silk, if_pos ⟨hm, hp⟩]; rfl
     exact inDtx_silk c _ hsu (by rw [hpm]; exact hpm') (Nat.le_of_lt h0) (fun a b => Nat.le_of_lt (h1 a b))
 
 theorem inv_init (ch : Nat) : Inv (initSt ch) := fun _ => rfl
@@ -372,8 +393,9 @@ theorem inv_encodeCall (c : Cfg) (st : St) (o : CallOr) (hinv : Inv st) (hwf : W
       · have hprep : Inv (prepCall c st o) := by
           intro hp
           rw [prepCall_prevMode] at hp
-          rw [prepCall_silk]
-          simp [hp, hinv hp]
+          rcases prepCall_c0 c st o with h | h
+          · rw [h]; exact hinv hp
+          · exact h
         split
         · exact hprep
         · intro hp
